@@ -892,17 +892,143 @@ func (g *gen) scenChangeless() core.Case {
 	return g.finish("changeless")
 }
 
+// ---- exhaustive small-scope enumerations (thorough tier) ----------------------------------------------------------
+
+// every explicit selection of length 1 and 2 (incl. repeats) over a fixed 8-coin universe in which each coin fails a
+// different clause of the eligibility sentence, through every entry point
+func (g *gen) enumSelections() []core.Case {
+	var cases []core.Case
+	setup := func() (coins []string) {
+		g.start()
+		g.add("recv tx=T1 outs=wpkh:0:400001,tr:0:300002,pkh:0:200003,np:0:250004,wpkh:1:350005,wpkh:0:150006")
+		g.add("block txs=T1")
+		g.add("recv tx=T2 outs=wpkh:0:500007") // unconfirmed, minconf 1
+		g.add("lock op=T1:2")
+		g.add("lease op=T1:3 id=1 dur=600")
+		g.add("create name=T3 api=send acct=0 scope=any chg=same minconf=1 rate=1000 strat=largest outs=xwpkh:100000 sel=T1:5 ans=ok") // T1:5 spent by unconfirmed
+		g.next = 3
+		return []string{"T1:0", "T1:1", "T1:2", "T1:3", "T1:4", "T2:0", "T1:5", "T950:0"}
+	}
+	for _, api := range []string{"dry", "simple", "psbt", "send"} {
+		coins := setup()
+		n := 0
+		flush := func() {
+			g.add("state")
+			cases = append(cases, g.finish("enum-selection"))
+			coins = setup()
+			n = 0
+		}
+		var sels [][]string
+		for _, a := range coins {
+			sels = append(sels, []string{a})
+			for _, b := range coins {
+				sels = append(sels, []string{a, b})
+			}
+		}
+		for _, sel := range sels {
+			if api == "send" || api == "simple" {
+				// a successful send changes the state: one selection per fresh wallet
+				g.simpleCreate(api, 0, "any", 1, 60000, sel)
+				flush()
+				continue
+			}
+			g.simpleCreate(api, 0, "any", 1, 60000, sel)
+			n++
+			if n == 24 {
+				flush()
+			}
+		}
+		if n > 0 {
+			flush()
+		}
+	}
+	return cases
+}
+
+// every answer class x shape of the published transaction x entry point
+func (g *gen) enumAnswers() []core.Case {
+	var cases []core.Case
+	classes := []string{"accepted", "mempool", "known", "confirmed", "rejected", "undefined", "notifyfail"}
+	for _, cls := range classes {
+		for shape := 0; shape < 5; shape++ { // 0 new, 1 new+lease on input, 2 recorded no child, 3 recorded with child chain, 4 confirmed with unconfirmed child
+			for entry := 0; entry < 3; entry++ { // 0 publish, 1 resync, 2 restart
+				if (shape < 2 || cls == "notifyfail") && entry > 0 {
+					continue // a new transaction is not in the resend list; NotifyReceived is not called on resend
+				}
+				g.start()
+				g.add("recv tx=T1 outs=wpkh:0:600001,tr:0:500002")
+				g.add("block txs=T1")
+				g.next = 1
+				var target string
+				switch shape {
+				case 0, 1:
+					target = g.simpleCreate("simple", 0, "any", 1, 100000, []string{"T1:0"})
+					if shape == 1 {
+						g.add("lease op=T1:0 id=1 dur=600")
+					}
+				case 2:
+					target = g.simpleCreate("send", 0, "any", 1, 100000, []string{"T1:0"})
+				case 3:
+					target = g.simpleCreate("send", 0, "any", 1, 100000, []string{"T1:0"})
+					c := g.simpleCreate("send", 0, "any", 0, 50000, []string{target + ":c"})
+					g.simpleCreate("send", 0, "any", 0, 20000, []string{c + ":c"})
+					g.recv(1, []string{target + ":0"})
+				case 4:
+					target = g.simpleCreate("send", 0, "any", 1, 100000, []string{"T1:0"})
+					g.add("block txs=" + target)
+					g.simpleCreate("send", 0, "any", 0, 50000, []string{target + ":c"})
+				}
+				g.add("state")
+				var spec string
+				switch cls {
+				case "undefined":
+					spec = []string{"b:connection+reset+by+peer", "n:something+unexpected"}[g.rng.Intn(2)]
+				case "notifyfail":
+					spec = "ok"
+				default:
+					spec = g.ans.pick(g.rng, cls)
+					for cls == "rejected" && intendedClass(spec) != "rejected" {
+						spec = g.ans.pick(g.rng, cls)
+					}
+				}
+				switch entry {
+				case 0:
+					op := fmt.Sprintf("publish name=%s ans=%s", target, spec)
+					if cls == "notifyfail" {
+						op += " notify=fail"
+					}
+					g.add(op)
+				case 1:
+					g.add(fmt.Sprintf("resync ans=%s@%s", target, spec))
+				case 2:
+					g.add(fmt.Sprintf("restart ans=%s@%s", target, spec))
+				}
+				g.add("state")
+				g.simpleCreate("dry", 0, "any", 0, 300000, nil)
+				g.add("resync")
+				g.add("state")
+				cases = append(cases, g.finish(fmt.Sprintf("enum-answer-%s-shape%d-entry%d", cls, shape, entry)))
+			}
+		}
+	}
+	return cases
+}
+
 func (engine) Generate(rng *rand.Rand, tier string) []core.Case {
 	g := &gen{rng: rng, ans: buildAnswers()}
 	nWalk, nScen, walkLen := 140, 12, 28
 	if tier == "thorough" {
-		nWalk, nScen, walkLen = 2500, 150, 40
+		nWalk, nScen, walkLen = 1000, 50, 36
 	}
 	var cases []core.Case
 	for i := 0; i < nScen; i++ {
 		cases = append(cases, g.scenCoinbase(), g.scenLocks(), g.scenSelection(), g.scenChain(), g.scenAnswers(),
 			g.scenReorg(), g.scenDoubleSpend(), g.scenChangeless())
 	}
+	if tier == "thorough" {
+		cases = append(cases, g.enumSelections()...)
+	}
+	cases = append(cases, g.enumAnswers()...)
 	for i := 0; i < nWalk; i++ {
 		cases = append(cases, g.randomWalk(walkLen))
 	}
